@@ -72,7 +72,8 @@ def judgeCase (static : List (String × String)) (j : Json) : Json :=
     let fs : FileSet := { files := static ++ files, imagePaths := imagePaths, matchKeys := mk }
     let issues := judge fs
     let xp := (j.getObjVal? "xp").toOption.getD (Json.mkObj [])
-    let cmp := (files.filter fun f => f.1.endsWith ".conf").map fun f =>
+    -- the harness sends crossplane's tokens once per distinct file content
+    let cmp := (files.filter fun f => f.1.endsWith ".conf" && (xp.getObjVal? f.1).toOption.isSome).map fun f =>
       lexCompare f.1 f.2 ((getArr xp f.1).toList.map fun t => t.getStr?.toOption.getD "")
     let ndirs : Nat := (files.filter fun f => f.1.endsWith ".conf").foldl (init := 0) fun n f =>
       match parse f.2.toList with | .ok ds => n + countDirs ds | .error _ => n
